@@ -8,6 +8,7 @@ namespace Drv
 def sortRanker (name : String) : Int → Int → Rank :=
   match name with
   | "nat" => rankInt
+  | "scratch" => rankInt
   | "rev" => fun a b => rankInt b a
   | "coarse" => fun a b => rankInt (a / 3) (b / 3)
   | "const" => fun _ _ => .eq
@@ -15,7 +16,7 @@ def sortRanker (name : String) : Int → Int → Rank :=
   | "gt" => fun _ _ => .gt
   | _ => fun a b => match (a * 31 + b * 17 + a * b) % 3 with | 0 => .lt | 1 => .eq | _ => .gt
 
-def rankerConsistent (name : String) : Bool := name == "nat" || name == "rev" || name == "coarse" || name == "const"
+def rankerConsistent (name : String) : Bool := name == "nat" || name == "scratch" || name == "rev" || name == "coarse" || name == "const"
 
 /-- rank class of a value under a consistent ranker (ties are interchangeable) -/
 def rankClass (name : String) (a : Int) : Int :=
